@@ -3,7 +3,7 @@ import sys
 from harness import common
 from symrun import loader
 loader.install()
-from harness.explore import Explore, make_jobs  # noqa: E402
+from harness.explore import Explore, make_jobs, make_random_jobs  # noqa: E402
 
 CONFIGS = {
     "set-set": dict(modes=("set", "set"), nmsg=(2, 2)),
@@ -83,7 +83,7 @@ class EventExplore(Explore):
 
 
 def jobs(tier):
-    return make_jobs(EventExplore, tier, 2, 3)
+    return make_jobs(EventExplore, tier, 2, 3) + make_random_jobs(EventExplore, tier)
 
 
 ASSUMPTIONS = [
